@@ -30,4 +30,5 @@ import (
 // expects from the bank module.
 type BankKeeperFee interface {
 	SendCoins(ctx context.Context, fromAddr, toAddr sdk.AccAddress, amt sdk.Coins) error
+	BlockedAddr(addr sdk.AccAddress) bool
 }
